@@ -727,6 +727,11 @@ def run(chk):
                         i += 1
                 if fixed_up == want:
                     suppressed = ["capitalised-function"]
+            if (not suppressed and pos == "enum_variant_payload" and n == "main" and r["stage"] == "typecheck"
+                    and "Unknown symbol" in r["msg"] and "variant-function-clash" in known_ids):
+                # oracle-only class: a payload variant spelled like a top-level function of the same program (here the
+                # template's own `main`); the checker resolves the pattern head to the function and binds nothing
+                suppressed = ["variant-function-clash"]
             if suppressed:
                 for fid in suppressed:
                     dist["known:" + fid] = dist.get("known:" + fid, 0) + 1
